@@ -153,7 +153,7 @@ func Touch(p unsafe.Pointer, write bool, site string) {
 	if s == nil || s.aborting || p == nil {
 		return
 	}
-	touch(s, uintptr(p), write, site)
+	touch(s, p, write, site)
 }
 
 // TouchMap is Touch for a map value (identity = the map header).
@@ -162,10 +162,13 @@ func TouchMap[K comparable, V any](m map[K]V, write bool, site string) {
 	if s == nil || s.aborting || m == nil {
 		return
 	}
-	touch(s, *(*uintptr)(unsafe.Pointer(&m)), write, site)
+	touch(s, *(*unsafe.Pointer)(unsafe.Pointer(&m)), write, site)
 }
 
-func touch(s *Sim, id uintptr, write bool, site string) {
+// The identity is kept as a real pointer, not a uintptr: a probed local variable therefore
+// escapes to the heap, so its address cannot be reused by another goroutine's stack while a
+// parked task still refers to it (stacks of parked goroutines may be moved by the runtime).
+func touch(s *Sim, id unsafe.Pointer, write bool, site string) {
 	t := s.cur
 	for _, o := range s.tasks {
 		if o != t && o.state == tRunnable && o.pend.id == id && (write || o.pend.write) {
